@@ -146,26 +146,67 @@ fn judge(tree: &Tree, t: &Table, text: &str, acc: &mut Acc) {
         return;
     }
     acc.nontrivial += 1;
+    for form in FORMS {
+        judge_form(form, tree, t, text, &vars, acc);
+    }
+}
+
+type VDeep<'a> = exmex::DeepEx<'a, Val<i32, f64>, exmex::ValOpsFactory<i32, f64>, exmex::ValMatcher>;
+type VFlat = exmex::FlatExVal<i32, f64>;
+/// the derivative as the property observes it: variable list, printed form, evaluation
+struct Deriv<'a> {
+    names: Vec<String>,
+    text: String,
+    eval: Box<dyn Fn(&[Val<i32, f64>]) -> exmex::ExResult<Val<i32, f64>> + 'a>,
+}
+impl<'a> Deriv<'a> {
+    fn of<E: Express<'a, Val<i32, f64>> + 'a>(e: E) -> Deriv<'a> {
+        Deriv { names: e.var_names().to_vec(), text: e.unparse().to_string(), eval: Box::new(move |v| e.eval(v)) }
+    }
+    fn var_names(&self) -> &[String] {
+        &self.names
+    }
+    fn unparse(&self) -> &str {
+        &self.text
+    }
+    fn eval(&self, v: &[Val<i32, f64>]) -> exmex::ExResult<Val<i32, f64>> {
+        (self.eval)(v)
+    }
+}
+/// flat (parse_val), deep (DeepEx::parse), flat converted to deep, deep converted to flat
+const FORMS: [&str; 4] = ["flat", "deep", "flat->deep", "deep->flat"];
+fn derive<'a>(form: &str, text: &'a str, i: usize) -> exmex::ExResult<Deriv<'a>> {
+    Ok(match form {
+        "flat" => Deriv::of(exmex::parse_val::<i32, f64>(text)?.partial(i)?),
+        "deep" => Deriv::of(VDeep::parse(text)?.partial(i)?),
+        "flat->deep" => Deriv::of(exmex::parse_val::<i32, f64>(text)?.to_deepex()?.partial(i)?),
+        _ => Deriv::of(VFlat::from_deepex(VDeep::parse(text)?)?.partial(i)?),
+    })
+}
+
+fn judge_form(form: &str, tree: &Tree, t: &Table, text: &str, vars: &[String], acc: &mut Acc) {
+    let fs = if form == "flat" { String::new() } else { format!("{form}:") };
+    let fs = fs.as_str();
     for i in 0..vars.len() {
         acc.evaluations += 1;
-        let lib = guard(|| exmex::parse_val::<i32, f64>(text).and_then(|e| e.partial(i)));
+        let lib = guard(|| derive(form, text, i));
         let d = match lib {
             Err(p) => {
-                acc.violate(Violation { signature: format!("panic:{}", panic_site(&p)), what: format!("partial({i}) of {text:?} panicked: {p}"), case: json!({"engine": "c18", "text": text}) });
+                acc.violate(Violation { signature: format!("{fs}panic:{}", panic_site(&p)), what: format!("{fs}partial({i}) of {text:?} panicked: {p}"), case: json!({"engine": "c18", "text": text}) });
                 continue;
             }
             Ok(Err(e)) => {
                 if no_rule_class(tree, t, &vars[i]) != NoRule::None {
                     acc.count("refused(no rule)", 1);
                 } else {
-                    acc.violate(Violation { signature: format!("differentiation-failed:{}", canon_ops(tree, t)), what: format!("partial({i}) of {text:?} failed: {}", e.msg()), case: json!({"engine": "c18", "text": text}) });
+                    acc.violate(Violation { signature: format!("{fs}differentiation-failed:{}", canon_ops(tree, t)), what: format!("{fs}partial({i}) of {text:?} failed: {}", e.msg()), case: json!({"engine": "c18", "text": text}) });
                 }
                 continue;
             }
             Ok(Ok(d)) => d,
         };
-        if d.var_names() != vars.as_slice() {
-            acc.violate(Violation { signature: "variable-list".into(), what: format!("derivative of {text:?} lists {:?} instead of {vars:?}", d.var_names()), case: json!({"engine": "c18", "text": text}) });
+        if d.var_names() != vars {
+            acc.violate(Violation { signature: format!("{fs}variable-list"), what: format!("{fs}derivative of {text:?} lists {:?} instead of {vars:?}", d.var_names()), case: json!({"engine": "c18", "text": text}) });
             continue;
         }
         if no_rule_class(tree, t, &vars[i]) == NoRule::Hard {
@@ -201,11 +242,11 @@ fn judge(tree: &Tree, t: &Table, text: &str, acc: &mut Acc) {
             let got = match got {
                 Ok(Ok(v)) => v,
                 Ok(Err(e)) => {
-                    acc.violate(Violation { signature: "derivative-eval-error".into(), what: format!("derivative of {text:?} cannot be evaluated: {}", e.msg()), case: json!({"engine": "c18", "text": text}) });
+                    acc.violate(Violation { signature: format!("{fs}derivative-eval-error"), what: format!("{fs}derivative of {text:?} cannot be evaluated: {}", e.msg()), case: json!({"engine": "c18", "text": text}) });
                     break;
                 }
                 Err(p) => {
-                    acc.violate(Violation { signature: format!("panic:{}", panic_site(&p)), what: format!("derivative of {text:?} panicked at {pt:?}: {p}"), case: json!({"engine": "c18", "text": text}) });
+                    acc.violate(Violation { signature: format!("{fs}panic:{}", panic_site(&p)), what: format!("{fs}derivative of {text:?} panicked at {pt:?}: {p}"), case: json!({"engine": "c18", "text": text}) });
                     break;
                 }
             };
@@ -214,8 +255,8 @@ fn judge(tree: &Tree, t: &Table, text: &str, acc: &mut Acc) {
                 RV::Float(f) => f,
                 other => {
                     acc.violate(Violation {
-                        signature: format!("derivative-not-a-number:{}", canon_ops(tree, t)),
-                        what: format!("d/d{} of {text:?} at {pt:?} evaluates to {other:?}, the derivative of the selected branch is {want}", vars[i]),
+                        signature: format!("{fs}derivative-not-a-number:{}", canon_ops(tree, t)),
+                        what: format!("{fs}d/d{} of {text:?} at {pt:?} evaluates to {other:?}, the derivative of the selected branch is {want}", vars[i]),
                         case: json!({"engine": "c18", "text": text}),
                     });
                     break;
@@ -224,8 +265,8 @@ fn judge(tree: &Tree, t: &Table, text: &str, acc: &mut Acc) {
             conclusive += 1;
             if (g - want).abs() > 16.0 * refj.d.e + 1e-9 * g.abs().max(want.abs()) + 1e-300 {
                 acc.violate(Violation {
-                    signature: format!("wrong-derivative:{}", canon_ops(tree, t)),
-                    what: format!("d/d{} of {text:?} at {pt:?} evaluates to {g:?} ({}), the derivative of the selected branch is {want:?}", vars[i], d.unparse()),
+                    signature: format!("{fs}wrong-derivative:{}", canon_ops(tree, t)),
+                    what: format!("{fs}d/d{} of {text:?} at {pt:?} evaluates to {g:?} ({}), the derivative of the selected branch is {want:?}", vars[i], d.unparse()),
                     case: json!({"engine": "c18", "text": text}),
                 });
                 break;
@@ -287,6 +328,62 @@ fn campaign(t: &std::sync::Arc<Table>, al: Alphabet, sizes: &[(usize, usize)], f
     rep.bounds.push(format!("{name}: {} trees (sizes {sizes:?}, filtered to well-typed shapes) x every variable x 6 float points: complete in {:.1}s", space.total, t0.elapsed().as_secs_f64()));
 }
 
+/// `F if E1 cmp E2 else G` (and the mirrored condition) for every arithmetic E1 with up to 3
+/// (thorough: 4) leaves: the condition is a chain of several operators on one nesting level
+fn condition_arithmetic(t: &std::sync::Arc<Table>, rep: &mut Report, th: bool) {
+    let f = |n: &str| -> u16 { t.ops.iter().position(|o| o.name == n && o.bin.is_some()).unwrap() as u16 };
+    let lv = |n: &str| if n.chars().next().unwrap().is_ascii_alphabetic() { Tree::var(n) } else { Tree::Lit(n.to_string()) };
+    let sizes: Vec<(usize, usize)> = if th { vec![(1, 0), (2, 0), (3, 0), (4, 0)] } else { vec![(1, 0), (2, 0), (3, 0)] };
+    let space = TreeSpace::new(Alphabet { leaves: vec![lv("x"), lv("y"), lv("2"), lv("1.5")], uns: vec![], bins: vec![f("+"), f("-"), f("*"), f("/")] }, &sizes);
+    let cmps: Vec<u16> = if th { vec![f("<"), f(">="), f(">"), f("<=")] } else { vec![f("<"), f(">=")] };
+    let e2s = [lv("2"), lv("y")];
+    let (fi, fe) = (f("if"), f("else"));
+    let pairs: Vec<(Tree, Tree)> = vec![
+        (Tree::bin(f("*"), lv("x"), lv("x")), Tree::bin(f("*"), lv("3"), lv("x"))),
+        (lv("x"), lv("2")),
+        (Tree::bin(f("*"), lv("x"), lv("y")), Tree::bin(f("+"), lv("x"), lv("y"))),
+        (lv("2.5"), Tree::bin(f("/"), lv("x"), lv("y"))),
+    ];
+    let per = cmps.len() * e2s.len() * 2 * pairs.len();
+    let total = space.total * per as u64;
+    let t0 = std::time::Instant::now();
+    let accs = par_ranges(total, 128, install_panic_hook, |st, en, acc| {
+        let r = Renderer { t, lk: LitKind::Val };
+        for i in st..en {
+            let e1 = space.get(i / per as u64);
+            let mut k = (i % per as u64) as usize;
+            let cmp = cmps[k % cmps.len()];
+            k /= cmps.len();
+            let e2 = e2s[k % e2s.len()].clone();
+            k /= e2s.len();
+            let mirrored = k % 2 == 1;
+            k /= 2;
+            let (fb, gb) = pairs[k].clone();
+            let cond = if mirrored { Tree::bin(cmp, e2, e1) } else { Tree::bin(cmp, e1, e2) };
+            if !cond.has_var() {
+                continue;
+            }
+            let tree = Tree::bin(fe, Tree::bin(fi, fb, cond), gb);
+            let text = r.render_default(&tree);
+            match spec::read(&text, t, LitKind::Val) {
+                SpecResult::Ok(t2) if t2 == tree => {}
+                o => {
+                    println!("MACHINERY-FAILURE property=C18 reference does not read back {text:?}: {o:?}");
+                    std::process::exit(2);
+                }
+            }
+            judge(&tree, t, &text, acc);
+            if i % 20011 == 0 {
+                acc.sample(json!({"campaign": "condition-arithmetic", "text": text}));
+            }
+        }
+    });
+    for a in accs {
+        rep.absorb(a);
+    }
+    rep.bounds.push(format!("condition-arithmetic: {} arithmetic conditions (sizes {sizes:?}) x {} comparisons x 2 right-hand sides x mirrored x {} branch pairs = {total} piecewise trees x 4 forms x every variable x 6 float points: complete in {:.1}s", space.total, cmps.len(), pairs.len(), t0.elapsed().as_secs_f64()));
+}
+
 fn name_of<'a>(tree: &Tree, t: &'a Table) -> &'a str {
     match tree {
         Tree::Un(k, _) | Tree::Bin(k, _, _) => t.ops[*k as usize].name,
@@ -342,7 +439,7 @@ fn has_piecewise(tree: &Tree, t: &Table) -> bool {
 
 pub fn run(tier: Tier) -> i32 {
     let mut rep = Report::new("C18", tier);
-    rep.rule = "all well-typed trees of the listed sizes over the value table (arithmetic, elementary functions, comparisons, if/else; integer and float literals mixed) incl. nested piecewise expressions with arithmetic around them; every variable; float-valued points at a margin from every branch boundary; oracle: conditions evaluated with the reference interpreter of the value type, forward-mode jets on the selected branch with rounding bounds; distinct = trees; non-trivial = has a variable".into();
+    rep.rule = "all well-typed trees of the listed sizes over the value table (arithmetic, elementary functions, comparisons, if/else; integer and float literals mixed) incl. nested piecewise expressions with arithmetic around them; flat (parse_val), deep (DeepEx::parse) and converted forms; a family with every arithmetic chain of up to 3 (thorough 4) operands inside the condition; every variable; float-valued points at a margin from every branch boundary; oracle: conditions evaluated with the reference interpreter of the value type, forward-mode jets on the selected branch with rounding bounds; distinct = trees; non-trivial = has a variable".into();
     rep.assumptions = vec!["points are float-valued (integer-valued points make the function integer arithmetic, which has no derivative)".into(), "comparison within 1e-3 of its boundary = point skipped".into()];
     let t = val_table();
     let f = |names: &[&str], unary: bool| -> Vec<u16> { names.iter().map(|n| t.ops.iter().position(|o| o.name == *n && if unary { o.unary } else { o.bin.is_some() }).unwrap() as u16).collect() };
@@ -355,6 +452,7 @@ pub fn run(tier: Tier) -> i32 {
     let pw_bins = f(&["+", "*", "/", "-", "if", "else", "<", ">", ">=", "=="], false);
     campaign(&t, Alphabet { leaves: lv(&["x", "y", "2", "2.5", "3"]), uns: f(&["-", "sin", "sqrt"], true), bins: pw_bins.clone() }, &if th { vec![(4, 0), (4, 1), (5, 0)] } else { vec![(4, 0), (4, 1)] }, |tr, t| well_typed(tr, t) && has_piecewise(tr, t), &mut rep, "piecewise-n4");
     campaign(&t, Alphabet { leaves: lv(&["x", "2", "1.5"]), uns: f(&["-", "sin"], true), bins: f(&["*", "/", "if", "else", "<", ">="], false) }, &[(4, 1), (5, 0)], |tr, t| well_typed(tr, t) && has_piecewise(tr, t), &mut rep, "piecewise-n5-single-var");
+    condition_arithmetic(&t, &mut rep, th);
     if th {
         campaign(&t, Alphabet { leaves: lv(&["x", "y", "2", "1.5"]), uns: vec![], bins: f(&["+", "*", "/", "if", "else", "<", ">"], false) }, &[(5, 0), (6, 0)], |tr, t| well_typed(tr, t) && has_piecewise(tr, t), &mut rep, "piecewise-n6");
         campaign(&t, Alphabet { leaves: lv(&["x", "2"]), uns: vec![], bins: f(&["*", "if", "else", "<", ">"], false) }, &[(7, 0)], |tr, t| well_typed(tr, t) && has_piecewise(tr, t), &mut rep, "nested-piecewise-n7");
